@@ -503,6 +503,34 @@ Definition dispatch_views (name : string) (a : list tok) : option (list tok * li
                       && in_rangev (k * 1000000000) && in_rangev (v + k * 1000000000)      (* "such that the result stays representable" *)
                    then sdur (clamp (v + k * 1000000000)) ++ [TZ t] else nospec
             end)
+  (* day of year (C20): 1-based float; from (year, day of year) and back *)
+  | "doy"%string, [TZ c; TZ n; TZ t] =>
+      let t := norm_ts t in
+      Some (match day_of_year (mk_epoch c n t) with Some x => [TZ (f_to_bits x)] | None => [TPanic] end,
+            let w := pval c n + spec_gregorian_zero t in
+            if in_rangev w then
+              let '(y, _, _) := civil_of_days (w / NS_PER_DAY) in
+              (* exact value: 1 + (w - start of year) / day; window centred on its double, +/- 4 ulps or 4e-12 day *)
+              let num := w - civil_days y 1 1 * NS_PER_DAY + NS_PER_DAY in
+              [fwindow (fdiv (f_of_Z num) (f_of_Z NS_PER_DAY)) 4436493793489709585]
+            else nospec)
+  | "from_doy"%string, [TZ y; TZ xb; TZ t] =>
+      let t := norm_ts t in
+      Some (match from_day_of_year y (f_of_bits xb) (ts_of_Z t) with Some e => [TZ 1; TZ (val (dur e)); TZ t] | None => [TPanic] end,
+            if f_finite_bits xb && (1 <=? y) && (y <=? 9999) then
+              (* start of the year in the scale + (days - 1) * day, within one rounding of the day count and of the product *)
+              let '(lo, hi) := affine_range xb 2 DAY_NS in
+              let z := civil_days y 1 1 * NS_PER_DAY - spec_gregorian_zero t in
+              if in_rangev (lo + z) && in_rangev (hi + z) then [TZ 1; TRange (lo + z) (hi + z); TZ t] else nopanic
+            else nopanic)
+  | "doy_rt"%string, [TZ y; TZ xb; TZ t] =>
+      (* (year, day of year) -> epoch -> (year, day of year): the same year, the same day to float precision *)
+      let t := norm_ts t in let x := f_of_bits xb in
+      Some (match from_day_of_year y x (ts_of_Z t) with
+            | Some e => match day_of_year e with Some d => [TZ (greg_year e); TZ (f_to_bits d)] | None => [TPanic] end
+            | None => [TPanic] end,
+            if f_finite_bits xb && (1 <=? y) && (y <=? 9999) && fle (f_of_Z 1) x && flt x (f_of_Z (if leap y then 367 else 366))
+            then [TZ y; fwindow x 4436493793489709585] else nopanic)
   | "from_unix_d"%string, [TZ c; TZ n] =>
       Some (match from_unix_duration (from_parts c n) with Some e => tepoch e | None => nospec end,
             sdur (clamp (UNIX_REF_UTC_NS + pval c n)) ++ [TZ 4])
